@@ -107,6 +107,9 @@ struct Params {
     /// register BOTH interfaces (the spawn=false one and its spawning twin) on the same object
     /// path; the calls still go to the one `spawn` selects
     both: bool,
+    /// which of the calls carry the NoReplyExpected flag (they are still executed, in their
+    /// place in the arrival order; no reply is due for them)
+    noreply: [bool; 3],
 }
 
 fn scenario(p: Params) -> ExecResult {
@@ -141,12 +144,12 @@ fn scenario(p: Params) -> ExecResult {
     let iface = if p.spawn { "a.b.Spawning" } else { "a.b.Serial" };
     let calls: Vec<zbus::Message> = (0..3)
         .map(|i| {
-            zbus::Message::method_call("/s", if p.muts[i] { "WorkMut" } else { "Work" })
+            let b = zbus::Message::method_call("/s", if p.muts[i] { "WorkMut" } else { "Work" })
                 .unwrap()
                 .interface(iface)
-                .unwrap()
-                .build(&(i as u32, p.yields[i]))
-                .unwrap()
+                .unwrap();
+            let b = if p.noreply[i] { b.with_flags(zbus::message::Flags::NoReplyExpected).unwrap() } else { b };
+            b.build(&(i as u32, p.yields[i])).unwrap()
         })
         .collect();
     let serials: Vec<_> = calls.iter().map(|c| c.primary_header().serial_num()).collect();
@@ -202,6 +205,10 @@ fn scenario(p: Params) -> ExecResult {
     }
     if !w.hit_horizon {
         for i in 0..3 {
+            if p.noreply[i] {
+                // whether a reply is (wrongly) sent to a no-reply call is C26's subject
+                continue;
+            }
             if replies[i] != 1 {
                 res.violations.push(
                     v("every-call-replied-once", format!("call {i} got {} replies (spawn={}); handler events {events:?}; trace={:?}", replies[i], p.spawn, w.trace))
@@ -241,6 +248,10 @@ pub fn main(args: &Args) -> i32 {
                 burst: j["burst"].as_bool().unwrap_or(true),
                 set_yields: j["set_yields"].as_u64().unwrap_or(0) as u32,
                 both: j["both"].as_bool().unwrap_or(false),
+                noreply: {
+                    let n = arr3("noreply");
+                    [0, 1, 2].map(|i| n.get(i).and_then(|v| v.as_bool()).unwrap_or(false))
+                },
             };
             Some(Box::new(move || scenario(p)))
         });
@@ -256,18 +267,29 @@ pub fn main(args: &Args) -> i32 {
                     if !quick || (yn != "y012" || !burst) {
                         scenarios.push((
                             format!("{}-{yn}-{mn}-{}", if spawn { "spawn" } else { "nospawn" }, if burst { "burst" } else { "trickle" }),
-                            Params { spawn, yields, muts, burst, set_yields: 0, both: false },
+                            Params { spawn, yields, muts, burst, set_yields: 0, both: false, noreply: [false; 3] },
                         ));
                         if (yn == "y210" && mn == "ref" && burst) || (yn == "y111" && mn == "mixed" && !burst) {
                             scenarios.push((
                                 format!("{}-{yn}-{mn}-{}-two-interfaces-on-the-path", if spawn { "spawn" } else { "nospawn" }, if burst { "burst" } else { "trickle" }),
-                                Params { spawn, yields, muts, burst, set_yields: 0, both: true },
+                                Params { spawn, yields, muts, burst, set_yields: 0, both: true, noreply: [false; 3] },
                             ));
+                        }
+                        if mn == "ref" && yn != "y012" {
+                            for (nn, noreply) in [("first", [true, false, false]), ("first-two", [true, true, false])] {
+                                if quick && (burst != (nn == "first")) {
+                                    continue;
+                                }
+                                scenarios.push((
+                                    format!("{}-{yn}-{mn}-{}-noreply-{nn}", if spawn { "spawn" } else { "nospawn" }, if burst { "burst" } else { "trickle" }),
+                                    Params { spawn, yields, muts, burst, set_yields: 0, both: false, noreply },
+                                ));
+                            }
                         }
                         if !spawn && mn == "ref" {
                             scenarios.push((
                                 format!("nospawn-{yn}-{mn}-{}-setter-in-flight", if burst { "burst" } else { "trickle" }),
-                                Params { spawn, yields, muts, burst, set_yields: 2, both: false },
+                                Params { spawn, yields, muts, burst, set_yields: 2, both: false, noreply: [false; 3] },
                             ));
                         }
                     }
@@ -285,7 +307,7 @@ pub fn main(args: &Args) -> i32 {
             &report,
             &totals,
             &name,
-            json!({"spawn": p.spawn, "yields": p.yields, "muts": p.muts, "burst": p.burst, "set_yields": p.set_yields, "both": p.both}),
+            json!({"spawn": p.spawn, "yields": p.yields, "muts": p.muts, "burst": p.burst, "set_yields": p.set_yields, "both": p.both, "noreply": p.noreply}),
             &plan,
             move || scenario(p),
         );
